@@ -55,6 +55,7 @@ static std::map<std::string, sg4::Disk*> disks;
 static std::map<std::string, sg4::VirtualMachine*> vms; // live VMs only
 static std::map<int, sg4::ActorPtr> latest; // script -> most recent incarnation still alive (dropped at its termination)
 static std::vector<sg4::ActorPtr> graveyard;
+static std::set<long> dead;   // pids whose termination was signalled
 static std::set<long> doomed; // pids the scripts themselves killed (directly or by turning their host off): left alone afterwards
 static std::vector<sg4::ActivityPtr> maestro_acts;
 static long executed_ops = 0;
@@ -105,6 +106,7 @@ static void body(int k)
   latest[k]          = self;
   // user host-state pushes of this incarnation not yet popped
   std::vector<std::pair<std::string, std::string>> mypush;
+  std::map<int, sg4::ActorPtr> my_suspended; // script -> the actor this incarnation suspended and has not resumed yet
   const auto& ops = scripts[k].ops;
   for (size_t i = 0; i < ops.size(); i++) {
     const auto& t = ops[i].t;
@@ -182,7 +184,15 @@ static void body(int k)
         if (h == nullptr || not h->is_on())
           continue;
         spawn(std::stoi(t[1]), h);
-      } else if (n == "kill" || n == "suspend" || n == "resume" || n == "join") {
+      } else if (n == "resume") { // resumes the very actor that this incarnation suspended for script <k> (if it still lives)
+        auto it = my_suspended.find(std::stoi(t[1]));
+        if (it == my_suspended.end())
+          continue;
+        sg4::ActorPtr a = it->second;
+        my_suspended.erase(it);
+        if (not doomed.count(a->get_pid()) && not dead.count(a->get_pid()) && a->is_suspended())
+          a->resume();
+      } else if (n == "kill" || n == "suspend" || n == "join") {
         auto it = latest.find(std::stoi(t[1])); // only live actors are in there: nothing is done on a terminated actor
         if (it == latest.end() || it->second.get() == self.get() || doomed.count(it->second->get_pid()))
           continue;
@@ -190,12 +200,12 @@ static void body(int k)
         if (n == "kill") {
           doomed.insert(a->get_pid());
           a->kill();
-        }
-        else if (n == "suspend")
-          a->suspend();
-        else if (n == "resume")
-          a->resume();
-        else
+        } else if (n == "suspend") {
+          if (not a->is_suspended()) {
+            a->suspend();
+            my_suspended[std::stoi(t[1])] = a;
+          }
+        } else
           a->join(D(t[2]));
       } else if (n == "suspendself") {
         sg4::this_actor::suspend();
@@ -504,6 +514,7 @@ int main(int argc, char** argv)
       a->set_auto_restart(true);
   }
   sg4::Actor::on_termination_cb([](sg4::Actor const& a) {
+    dead.insert(a.get_pid());
     for (auto it = latest.begin(); it != latest.end(); ++it)
       if (it->second.get() == &a) {
         graveyard.push_back(it->second); // released later from user context, as a program dropping its ActorPtr would do
